@@ -403,10 +403,27 @@ def gen_c10_one(rng, tier):
         c.append("wpat=%s" % rng.choice(["0,1000", "5", "1,0,7,1000"]))
     if rng.random() < 0.15:
         c.append("chunk=%s" % rng.choice(["1", "7", "2,0"]))
+    # the application's socket function table: without agetsockname, or the deprecated
+    # ares_set_socket_functions() (no setsockopt / bind / getsockname at the socket layer)
+    r = rng.random()
+    sockfuncs = "nogsn" if r < 0.12 else "legacy" if r < 0.24 else None
+    if sockfuncs:
+        c.append("sockfuncs=" + sockfuncs)
     ops = []
     T = 0
     nsock_guess = 0
     steps = rng.choice([3, 5, 8, 12, 20]) if tier == "quick" else rng.choice([5, 10, 20, 40])
+    if rng.random() < (0.5 if sockfuncs else 0.12):
+        # a getaddrinfo lookup that succeeds with several addresses and sorts them (RFC 6724
+        # source address probes: one UDP socket per candidate address, in ares_sortaddrinfo.c)
+        T += 1
+        ops.append("gai %d gs%dx.example %s 0" % (T, T, rng.choice(["0", "0", "4", "6"])))
+        ops.append("rspall " + rng.choice(["an=A:10.3.3.1+A:10.3.3.2", "an=A:10.3.3.1+A:192.168.1.9+A:127.0.0.1",
+                                           "an=AAAA:[fd00::5]+AAAA:[2001:db8::1]", "an=A:10.3.3.1"]))
+        ops.append("run 300")
+        if rng.random() < 0.5:
+            ops.append("qlen")
+            ops.append("fds")
 
     def probe():
         ops.append("qlen")
